@@ -147,6 +147,14 @@ def run(ctx):
                     pl = s["place"]
                     if pl["p"] and any(e["k"] == "field" and e.get("name") == "entries" and e.get("ty", "").startswith("std::collections::HashMap<summary::SummaryVariable") for e in pl["p"]):
                         writers_found.add(key)
+    # a function that only removes (clear/remove/retain/drain/...) cannot store a value of the wrong kind
+    HARMLESS = {"clear", "remove", "remove_entry", "retain", "drain", "shrink_to_fit", "shrink_to", "reserve", "try_reserve", "len", "is_empty", "capacity"}
+    for k in sorted(writers_found - set(WRITERS)):
+        uses = [e for p in (ctx.paths(k) or []) for e in p.events if e.kind == "call" and e.args and
+                mentions(e.args[0], lambda s: s[0] == "field" and s[3] == "entries") and isinstance(e.args[0], tuple) and e.args[0][0] == "refmut"]
+        stores = [e for p in (ctx.paths(k) or []) for e in p.events if e.kind == "store" and mentions(e.place, lambda s: s[0] == "field" and s[3] == "entries")]
+        if uses and not stores and all(e.name.split("::")[-1] in HARMLESS for e in uses):
+            writers_found.discard(k)
     unexpected = sorted(k for k in writers_found if k not in WRITERS)
     ctx.check(not unexpected, "D4-WHO-WRITES", "summary::Summary.entries", "writers",
               "only %s take &mut entries" % sorted(writers_found),
